@@ -102,6 +102,8 @@ func (f *Fetcher) FetchData(ctx context.Context) (Data, error) {
 	if len(f.data.Cookie) == 0 {
 		err := f.exchangeKeys(ctx)
 		if err != nil {
+			// do not keep anything received during a failed exchange
+			f.data = Data{}
 			return Data{}, err
 		}
 	}
